@@ -384,8 +384,9 @@ def run_task(cfg):
             _explore(irmod, sp, stats, meta, st, max_paths=300)
             if sample is None:
                 sample = {'harness': 'wps-helpers', 'l1': l1, 'l2': l2, 'window': w, 'calls': sorted(set(c[0] for c in calls)), 'wps elements': length}
+    # reachability: at least one path of the task ran each call sequence to its end with all monitors armed
     return {'stats': stats.as_dict(), 'cex': st['cex'], 'inconclusive': st['incon'], 'sample': sample, 'truncated': st['trunc'],
-            'unsupported': st.get('unsupported')}
+            'unsupported': st.get('unsupported'), 'twin': True if stats.unsat > 0 else None}
 
 
 def distances_spec(fn, n, blk, lens, ndim):
